@@ -272,6 +272,13 @@ func doOp(op Op, run *core.Run) {
 		nx, ny := c.ScalarMult(qx, qy, new(big.Int).Sub(N, big.NewInt(1)).Bytes())
 		zx, zy := c.Add(qx, qy, nx, ny)
 		run.Event("p384", "related", op.N%7, (op.N/7)%6, (op.N/42)%6, bigs(qx, qy), bigs(rx, ry), bigs(ax, ay), bigs(zx, zy))
+		// other representatives of the coordinates: x-p, x+p, x+2p (and the same for y). A
+		// coordinate is an integer in [0, p): whatever the build, only that one is on the curve.
+		pp := c.Params().P
+		shift := []*big.Int{new(big.Int).Neg(pp), pp, new(big.Int).Lsh(pp, 1)}[op.N%3]
+		run.Event("p384", "noncanonical", op.N%3,
+			c.IsOnCurve(new(big.Int).Add(qx, shift), qy), c.IsOnCurve(qx, new(big.Int).Add(qy, shift)),
+			c.IsOnCurve(new(big.Int).Add(qx, shift), new(big.Int).Add(qy, shift)), c.IsOnCurve(pp, pp), c.IsOnCurve(qx, qy))
 	case "csidh":
 		var prv csidh.PrivateKey
 		var pub csidh.PublicKey
